@@ -12,6 +12,7 @@ pub struct XRun {
     pub sums: Vec<Value>, // in sum mode
     pub exit: i64,        // exit status, 1000+signal, or -1 for a hang
     pub stderr: Vec<u8>,
+    pub stdout: Vec<u8>,
 }
 
 pub struct XOpts<'a> {
@@ -25,6 +26,8 @@ pub struct XOpts<'a> {
     pub clear_env: bool,
     pub rlimit_stack: Option<u64>,
     pub timeout_s: u64,
+    pub no_cmd: bool,   // no command at all: xargs' own echo
+    pub arg_file: bool, // the input is given with -a FILE; standard input holds something else
 }
 
 impl<'a> XOpts<'a> {
@@ -40,6 +43,8 @@ impl<'a> XOpts<'a> {
             clear_env: false,
             rlimit_stack: None,
             timeout_s: 60,
+            no_cmd: false,
+            arg_file: false,
         }
     }
 }
@@ -74,10 +79,15 @@ pub fn run_xargs(sb: &Sandbox, o: &XOpts) -> XRun {
     for a in &o.opts {
         c.arg(a);
     }
-    match &o.cmd {
-        None => c.arg(vrec_path()),
-        Some(p) => c.arg(p),
-    };
+    if o.arg_file {
+        c.arg("-a").arg(&inp);
+    }
+    if !o.no_cmd {
+        match &o.cmd {
+            None => c.arg(vrec_path()),
+            Some(p) => c.arg(p),
+        };
+    }
     for a in &o.init {
         c.arg(std::ffi::OsStr::from_bytes(a));
     }
@@ -100,8 +110,15 @@ pub fn run_xargs(sb: &Sandbox, o: &XOpts) -> XRun {
     for (k, v) in &o.env {
         c.env(k, v);
     }
-    c.stdin(Stdio::from(std::fs::File::open(&inp).unwrap()));
-    c.stdout(Stdio::null());
+    if o.arg_file {
+        let other = sb.path().join("stdin.other");
+        std::fs::write(&other, b"NOT THE INPUT\n").unwrap();
+        c.stdin(Stdio::from(std::fs::File::open(&other).unwrap()));
+    } else {
+        c.stdin(Stdio::from(std::fs::File::open(&inp).unwrap()));
+    }
+    let outf = sb.path().join("stdout.bin");
+    c.stdout(Stdio::from(std::fs::File::create(&outf).unwrap()));
     let errf = sb.path().join("stderr.txt");
     c.stderr(Stdio::from(std::fs::File::create(&errf).unwrap()));
     c.current_dir(sb.path());
@@ -118,7 +135,7 @@ pub fn run_xargs(sb: &Sandbox, o: &XOpts) -> XRun {
         Ok(ch) => ch,
         Err(e) => {
             // e.g. the environment asked for does not fit the stack limit asked for: nothing was run
-            return XRun { execs: vec![], cwds: vec![], sums: vec![], exit: -3, stderr: format!("spawn: {}", e).into_bytes() };
+            return XRun { execs: vec![], cwds: vec![], sums: vec![], exit: -3, stderr: format!("spawn: {}", e).into_bytes(), stdout: vec![] };
         }
     };
     let t0 = std::time::Instant::now();
@@ -149,7 +166,8 @@ pub fn run_xargs(sb: &Sandbox, o: &XOpts) -> XRun {
     }
     let (execs, cwds, sums) = read_log(&log);
     let stderr = std::fs::read(&errf).unwrap_or_default();
-    XRun { execs, cwds, sums, exit, stderr }
+    let stdout = std::fs::read(&outf).unwrap_or_default();
+    XRun { execs, cwds, sums, exit, stderr, stdout }
 }
 
 /// A panic of the code under test shows up as exit status 101 with a panic message.
